@@ -554,9 +554,16 @@ def _job(job):
         if ex.capped:
             part.cap(f"pass horizon hit in {name}")
 
-    st = explorer.explore(factory, case, bound, max_execs=40000 if bound <= 2 else 1200, max_passes=2500, on_exec=on_exec)
+    # every scenario is explored completely up to bound 2 (cap 40000, never reached so far); the thorough tier then goes
+    # on to bound 3 under a cap per scenario (272 scenarios: an uncapped bound 3 is more than an hour) - a second walk
+    # that passes through the lower bounds again, so its executions are counted twice
+    st = explorer.explore(factory, case, min(bound, 2), max_execs=40000, max_passes=2500, on_exec=on_exec)
     if st["truncated"]:
-        part.cap(f"execution cap hit for {name} at bound {bound} (complete up to bound {st['completed_bound']}, {st['executions']} executions reported)")
+        part.cap(f"execution cap hit for {name} at bound {min(bound, 2)} (complete up to bound {st['completed_bound']}, {st['executions']} executions reported)")
+    if bound > 2:
+        st3 = explorer.explore(factory, case, bound, max_execs=1500, max_passes=2500, on_exec=on_exec)
+        if st3["truncated"]:
+            part.cap(f"execution cap 1500 hit for {name} at bound {bound} (complete up to bound {max(st3['completed_bound'], st['completed_bound'])})")
     if len(part.samples) < 1:
         part.sample({"case": name, "bound": bound, "executions": st["executions"]})
     return part
